@@ -10,7 +10,7 @@ RULE = ("candidate lists of 2-5 names (same and different bases, tied versions s
         "implementation's own pairwise answers; non-trivial = at least two candidates match the pattern")
 FUNCTIONAL = True
 TIES = ["1.0", "1.0.0", "1_0", "1pl0", "1.0pl", "1.", "1", "1.0nb0", "01.0", "1.0nb1", "1.0.0nb1", "1.0alpha", "1.0ALPHA", "1.0rc1", "1.0pre1", "2", "0.9", "1a", "1A", "1_a",
-        "1nb3nb", "1nb1", "1nb2nb0", "1.0nb2nb", "1nbnb4", "1nb0nb", "0", "", "0alpha1", "alpha"]
+        "00000000000000000001.5", "000000000000000000000001", "0000000000000000000000002.0", "1.00000000000000000000", "1nb000000000000000000003", "1nb3nb", "1nb1", "1nb2nb0", "1.0nb2nb", "1nbnb4", "1nb0nb", "0", "", "0alpha1", "alpha"]
 
 
 def generate(rng, tier):
